@@ -86,6 +86,9 @@ def make_frame(ms, name="frame"):
     f = motion_functions(ms)
     if ms.get("array_derivs"):
         return Frame(r_OP=f["r"], r_OP_t=np.array(ms["c1"], dtype=float), r_OP_tt=np.zeros(3), A_IB=f["A"](0.0), name=name)
+    if f["rotating"] and not f["moving"]:
+        # turning about a constant origin: the origin is handed over as a plain array
+        return Frame(r_OP=np.array(ms["c0"], dtype=float), A_IB=f["A"], A_IB_t=f["A_t"], A_IB_tt=f["A_tt"], name=name)
     if f["moving"] or f["rotating"]:
         return Frame(r_OP=f["r"], r_OP_t=f["r_t"], r_OP_tt=f["r_tt"], A_IB=f["A"], A_IB_t=f["A_t"],
                      A_IB_tt=f["A_tt"], name=name)
